@@ -29,6 +29,19 @@ theorem leaf_keys_lt {t : Levels} {lpre : List (Leaf × Bool)} {last : Leaf} {d 
   rw [keys_snoc hpre]
   exact List.mem_append_right _ hx
 
+/-- the last leaf of a tree with a well-formed leaf chain has no right sibling -/
+theorem chainFrom_last_hasR : ∀ (ls : List Leaf) (prev : Option Nat) (last : Leaf),
+    chainFrom prev (ls ++ [last]) → last.hasR = false
+  | [], _, _, h => h.2.1
+  | [_], _, last, h => chainFrom_last_hasR [] _ last h.2.2
+  | _ :: b :: ls, _, last, h => chainFrom_last_hasR (b :: ls) _ last h.2.2
+
+theorem last_hasR_of_chain {t : Levels} {lpre : List (Leaf × Bool)} {last : Leaf} {d : Bool}
+    (hch : ChainOK t) (hpre : t.leaves = lpre ++ [(last, d)]) : last.hasR = false := by
+  unfold ChainOK at hch
+  rw [hpre, List.map_append] at hch
+  exact chainFrom_last_hasR _ _ _ hch
+
 /-- the leaf level below an internal node -/
 theorem leafSome (v0 : View) (t t' : Levels) (key lsn nf' : Nat) (value : Bytes) (s : Store) (root : Nat)
     (hinv : Inv t s.hdr.nextFree) (hrep : Rep (view s) s.hdr.nextFree v0 t)
@@ -40,6 +53,7 @@ theorem leafSome (v0 : View) (t t' : Levels) (key lsn nf' : Nat) (value : Bytes)
     ∃ s', insertLeaf (some p.off) last key lsn value root s = .ok root s' ∧
       After lsn v0 t' nf' 0 t.inner s' := by
   have hpos := leaf_keys_lt hpre hk
+  have hR := last_hasR_of_chain hinv.chain hpre
   have hps := pageSize_pos
   have hmem : (ppre ++ [(p, dp)]) ∈ t.inner := by rw [hin]; simp
   have hpm : (p, dp) ∈ ppre ++ [(p, dp)] := by simp
@@ -47,7 +61,7 @@ theorem leafSome (v0 : View) (t t' : Levels) (key lsn nf' : Nat) (value : Bytes)
   simp only at hpre hin
   subst hpre hin
   rcases hcase with ⟨hsmall, rfl, rfl⟩ | ⟨hfull, rfl, rfl⟩
-  · obtain ⟨s', e, v, n⟩ := insertLeaf_view_nosplit s (some p.off) last key lsn value root hpos hv hsmall
+  · obtain ⟨s', e, v, n⟩ := insertLeaf_view_nosplit s (some p.off) last key lsn value root hpos hR hv hsmall
     refine ⟨s', e, lpre ++ [(leafApp last key lsn value, true)], [], none, rfl, ?_, ?_, ?_⟩
     · simp [finish]
     · simp [finish, n]
@@ -63,7 +77,7 @@ theorem leafSome (v0 : View) (t t' : Levels) (key lsn nf' : Nat) (value : Bytes)
     have haL := Rep.atLeaf hrep
     have haP := Rep.atInt (lo := []) hrep
     have hne := Rep.leaf_ne_int hrep
-    obtain ⟨s', e, v, n⟩ := insertLeaf_view_split_some s p.off last key lsn value root p dp lastc hpos hv hfull
+    obtain ⟨s', e, v, n⟩ := insertLeaf_view_split_some s p.off last key lsn value root p dp lastc hpos hR hv hfull
       haP.1 rfl hlastc hkey (by omega) hne (by omega)
     refine ⟨s', e, lpre ++ [(leafL (leafApp last key lsn value) s.hdr.nextFree, true),
         (leafR (leafApp last key lsn value) lsn s.hdr.nextFree, true)], [],
@@ -84,7 +98,7 @@ theorem leafSome (v0 : View) (t t' : Levels) (key lsn nf' : Nat) (value : Bytes)
 /-- the tree whose root is a leaf -/
 theorem leafNone (v0 : View) (t t' : Levels) (key lsn nf' : Nat) (value : Bytes) (s : Store) (root : Nat)
     (hrep : Rep (view s) s.hdr.nextFree v0 t)
-    (last : Leaf) (d : Bool) (hpre : t.leaves = [(last, d)])
+    (last : Leaf) (d : Bool) (hpre : t.leaves = [(last, d)]) (hR : last.hasR = false)
     (hk : ∀ a ∈ keys t, a < key) (hv : value.length ≤ c_maxValueSize)
     (hcase : AppCases t t' key lsn s.hdr.nextFree nf' value [] last)
     (hin : t.inner = []) (hroot : root = last.off) :
@@ -96,13 +110,13 @@ theorem leafNone (v0 : View) (t t' : Levels) (key lsn nf' : Nat) (value : Bytes)
   subst hpre hin
   have hrep' : Rep (view s) s.hdr.nextFree v0 ⟨[] ++ [(last, d)], []⟩ := hrep
   rcases hcase with ⟨hsmall, rfl, rfl⟩ | ⟨hfull, rfl, rfl⟩
-  · obtain ⟨s', e, v, n⟩ := insertLeaf_view_nosplit s none last key lsn value root hpos hv hsmall
+  · obtain ⟨s', e, v, n⟩ := insertLeaf_view_nosplit s none last key lsn value root hpos hR hv hsmall
     refine ⟨s', root, e, ?_, ?_, n⟩
     · simp [rootOff, hroot, leafApp]
     · rw [v]
       exact Rep.setLeaf hrep' rfl
   · have haL := Rep.atLeaf hrep'
-    obtain ⟨s', e, v, n⟩ := insertLeaf_view_split_none s last key lsn value root hpos hv hfull
+    obtain ⟨s', e, v, n⟩ := insertLeaf_view_split_none s last key lsn value root hpos hR hv hfull
       (by omega) (by omega)
     rw [bubble_nil]
     refine ⟨s', _, e, ?_, ?_, n⟩
